@@ -263,10 +263,27 @@ class PointTimeout(BaseException):
 
 
 def _alarm(signum, frame):
-    raise PointTimeout('one point ran longer than %d s' % POINT_TIMEOUT)
+    raise PointTimeout('one point used more than %d s of CPU time (or %d s of wall time)' % (POINT_TIMEOUT, WALL_BACKSTOP))
 
 
-POINT_TIMEOUT = int(os.environ.get('VERIF_POINT_TIMEOUT', '400'))
+# The watchdog counts the CPU time of the worker (ITIMER_PROF), not wall time: a loaded machine must not turn a slow
+# point into an alarm.  The wall-clock backstop only exists for a worker that blocks without computing.
+POINT_TIMEOUT = int(os.environ.get('VERIF_POINT_TIMEOUT', '1500'))
+WALL_BACKSTOP = int(os.environ.get('VERIF_WALL_BACKSTOP', str(24 * POINT_TIMEOUT)))
+
+
+def arm():
+    import signal
+    signal.signal(signal.SIGPROF, _alarm)
+    signal.signal(signal.SIGALRM, _alarm)
+    signal.setitimer(signal.ITIMER_PROF, POINT_TIMEOUT)
+    signal.alarm(WALL_BACKSTOP)
+
+
+def disarm():
+    import signal
+    signal.setitimer(signal.ITIMER_PROF, 0)
+    signal.alarm(0)
 
 
 def _work(args):
@@ -276,17 +293,18 @@ def _work(args):
     ctx = Ctx(_PROP, sub.name)
     fails = []
     n = 0
-    signal.signal(signal.SIGALRM, _alarm)
     for pt in chunk:
         ctx.point = pt
         ctx.fails = []
         n += 1
+        c0 = time.process_time()
         try:
-            signal.alarm(POINT_TIMEOUT)      # a change that makes the library loop forever is reported, not waited for
+            arm()      # a change that makes the library loop forever is reported, not waited for
             try:
                 sub.run(ctx, pt)
             finally:
-                signal.alarm(0)
+                disarm()
+                ctx.extra['max_point_cpu_s'] = max(ctx.extra['max_point_cpu_s'], int(time.process_time() - c0 + 0.999))
         except PointTimeout as e:
             ctx.fail('%s/%s/point-timeout' % (_PROP, sub.name), 'the point completes', str(e))
         except Exception as e:
@@ -359,7 +377,7 @@ def run_property(prop, subs, tier, workers=None, only=None):
             p['sample_histories'] += smp[:1] + smp[-1:]
         for k, v in extra.items():
             p.setdefault('extra', {})
-            p['extra'][k] = p['extra'].get(k, 0) + v
+            p['extra'][k] = max(p['extra'].get(k, 0), v) if k.startswith('max_') else p['extra'].get(k, 0) + v
         for f in fl:
             if len(fails.setdefault(f['class_key'], [])) < MAXFAIL_PER_CLASS:
                 fails[f['class_key']].append(f)
@@ -410,11 +428,12 @@ def _rebuild(ctx, sysm, hist):
     return o
 
 
-def bfs(ctx, key, sysm, depth):
+def bfs(ctx, key, sysm, depth, part=(0, 1), tier=None):
     """Breadth-first search to `depth` (or to the fixpoint if reached earlier).  A state
     is rebuilt by replaying the history that first reached it on a fresh object, so
     every explored path is a real execution.  Successors are deduplicated by
-    sysm.canon.  Returns (states, transitions, fixpoint)."""
+    sysm.canon.  Returns (states, transitions, fixpoint).  part=(j, J) explores only the root events whose index is
+    j modulo J (the J parts together are the whole tree; states are deduplicated within a part only)."""
     root = sysm.fresh()
     c0 = sysm.canon(root)
     seen = {h8(c0)}
@@ -425,6 +444,8 @@ def bfs(ctx, key, sysm, depth):
         nxt = []
         for hist in frontier:
             evs = sysm.events(_rebuild(ctx, sysm, hist))
+            if d == 0:
+                evs = [ev for i, ev in enumerate(evs) if i % part[1] == part[0]]
             for ev in evs:
                 o = _rebuild(ctx, sysm, hist)
                 ctx.calls += 1
@@ -435,7 +456,7 @@ def bfs(ctx, key, sysm, depth):
                 trans += 1
                 if len(ctx.samples) < 2 or d == depth - 1 or True:
                     ctx.samples = (ctx.samples[:2] + [{'system': key, 'history': list(hist + (ev,)), 'result': short(r, 80)}])[:3] if len(ctx.samples) >= 2 else ctx.samples + [{'system': key, 'history': list(hist + (ev,)), 'result': short(r, 80)}]
-                ctx.point_override = ('hist', key, hist + (ev,))
+                ctx.point_override = ('hist', key, hist + (ev,)) + ((tier,) if tier else ())
                 sysm.judge(ctx, hist, ev, r, o)
                 ctx.point_override = None
                 c = sysm.canon(o)
@@ -476,6 +497,7 @@ def pristine(f):
     if pid == 0:
         try:
             os.close(r)
+            arm()              # interval timers are not inherited over fork: the child gets its own watchdog
             out = pickle.dumps(f())
         except BaseException as e:      # noqa
             out = pickle.dumps(('exc', 'harness:' + type(e).__name__))
@@ -493,23 +515,34 @@ def pristine(f):
     return pickle.loads(buf)
 
 
-def hsub(name, systems, depth, bound=''):
+def hsub(name, systems, depth, bound='', split=1):
     """Sub for a family of H systems: `systems(tier)` -> dict key -> HSystem,
-    `depth(tier)` -> int.  One point per system (each BFS runs in one worker)."""
+    `depth(tier)` -> int.  One point per system and part (each BFS runs in one worker); `split` (int or tier -> int,
+    or a dict attribute `split` of the system) cuts the tree of one system into that many parts by its root events."""
+    def nsplit(sysm, tier):
+        J = split(tier) if callable(split) else split
+        if isinstance(getattr(sysm, 'split', None), dict):
+            J = sysm.split.get(tier, J)
+        return max(1, J)
+
     def points(tier):
-        return [(k, tier) for k in systems(tier)]
+        out = []
+        for k, sysm in systems(tier).items():
+            J = nsplit(sysm, tier)
+            out += [(k, tier, j, J) for j in range(J)]
+        return out
 
     def run(ctx, pt):
         if pt[0] == 'hist':
-            _, key, hist = pt
-            sysm = systems('thorough')[key]
+            key, hist = pt[1], pt[2]
+            sysm = systems(pt[3])[key] if len(pt) > 3 else (systems('thorough').get(key) or systems('quick')[key])
             replay_hist(ctx, sysm, hist)
             return
-        key, tier = pt
+        key, tier, j, J = pt
         sysm = systems(tier)[key]
         d = depth(tier) if callable(depth) else depth
         d = getattr(sysm, 'depth', {}).get(tier, d) if isinstance(getattr(sysm, 'depth', None), dict) else d
-        st, tr, fix = bfs(ctx, key, sysm, d)
+        st, tr, fix = bfs(ctx, key, sysm, d, (j, J), tier)
         ctx.extra['h_states'] += st
         ctx.extra['h_transitions'] += tr
     return Sub(name, points, run, engine='H', bound=bound, chunk=1)
